@@ -1165,8 +1165,11 @@ func (m *NetworkMachine) WhenDisposed() <-chan struct{} {
 func (m *NetworkMachine) Export() (*am.Serialized, am.Schema, error) {
 	m.clockMx.RLock()
 	defer m.clockMx.RUnlock()
+
+	// dont hold schemaMx here, time() and StateNames() lock it themselves
 	m.schemaMx.RLock()
-	defer m.schemaMx.RUnlock()
+	schema := m.schema.Clone()
+	m.schemaMx.RUnlock()
 
 	m.log(am.LogChanges, "[import] exported at %d ticks", m.time(nil))
 
@@ -1176,7 +1179,7 @@ func (m *NetworkMachine) Export() (*am.Serialized, am.Schema, error) {
 		StateNames:  m.StateNames(),
 		MachineTick: m.machTick,
 		QueueTick:   m.queueTick,
-	}, m.schema.Clone(), nil
+	}, schema, nil
 }
 
 // Schema returns a copy of machine's state structure.
